@@ -62,11 +62,21 @@ Proof. exact global_timeout_not_retried. Qed.
 Theorem c17_budget : forall c, budget proxy_src c = Nat.max proxy_min_budget (c_num_retries c).
 Proof. exact (fun c => eq_refl). Qed.
 
+(* ---- route actions are applied exactly once per request: every attempt, retries included, is sent the request headers on which
+   FinalizeRequestHeaders ran exactly once ([g_fin_bad] = some attempt's headers were finalised 0 or >= 2 times; last conjunct of
+   the family theorem below).  doRetry does not finalise again (switch read from the source); if it did: ---- *)
+Example c17_refinalize_on_retry_doubles :
+  g_fin_bad (summ src_refinalize cfg_pertry sched_pertry) = true /\ g_fin_bad (summ src_tree cfg_pertry sched_pertry) = false /\
+  g_new (summ src_tree cfg_pertry sched_pertry) = 2%nat.
+Proof. exact witness_refinalize. Qed.
+Theorem c17_retry_does_not_refinalize : retry_refinalizes proxy_src = false.
+Proof. exact (eq_refl false). Qed.
+
 (* ---- attempts <= 1 + budget, never after the reply started, every attempt on a freshly chosen host:
    family x every schedule ---- *)
 Theorem c17_retry_bound_family : forall c, In c family -> forall sched, Forall allowed sched ->
   let g := summ proxy_src c sched in
-  (g_new g <= 1 + budget proxy_src c)%nat /\ g_new_after_start g = false /\ g_new_unchosen g = false.
+  (g_new g <= 1 + budget proxy_src c)%nat /\ g_new_after_start g = false /\ g_new_unchosen g = false /\ g_fin_bad g = false.
 Proof. exact c17_retry_family. Qed.
 Print Assumptions c17_retry_bound_family.
 
